@@ -781,105 +781,221 @@ Definition with_env {A} (e : env) (r : res A) : res (A * env) := do a <- r ;; re
 
 Definition tail_arg (f v : value) : value := if is_nilary f then vnil else v.
 
+(* spec "Pattern matching": a match evaluates to Ok / [] (R3 on failure).  `tf`: the fuel of the
+   type tests (`inhab`) *)
+Definition do_match (tf : nat) (c : ctx) (e : env) (p : pattern) (v : value) : res (value * env) :=
+  match pmatch tf (c_tenv c) e [] p v with
+  | POk b => ret (vok, b ++ e)
+  | PFail => Ret (vnil, nil_fill (binders p) ++ e) ev_match_fail
+  | PErr err => Error err
+  | PTimeout => Timeout
+  end.
+
+(* ------------------------------------------------------------------------------------------
+   The walkers over the lists of the AST, parameterised by the evaluator of one element.  (They
+   are defined before the evaluator so that the evaluator is structurally recursive on the AST:
+   fuel is only consumed by function calls and imports.) *)
+Section Walkers.
+  (* spec "Chains": infallible pipe, left to right *)
+  Variable ev_term : term -> env -> value -> res (value * env).
+  Fixpoint terms_with (ts : list term) (e : env) (v : value) : res (value * env) :=
+    match ts with
+    | [] => ret (v, e)
+    | t :: r =>
+        do x <- ev_term t e v ;;
+        tick (match t, r with
+              | Match _, _ :: _ => if is_nil (fst x) then ev_mid_fail else st0
+              | _, _ => st0
+              end)
+             (terms_with r (snd x) (fst x))
+    end.
+End Walkers.
+
+Section Walkers2.
+  Variable ev_chain : chain -> env -> value -> res (value * env).
+  (* spec "Expressions"/"Control flow": fallible pipe: a nil step ends the sequence with nil *)
+  Fixpoint seq_with (cs : list chain) (e : env) (v : value) : res (value * env) :=
+    match cs with
+    | [] => ret (v, e)
+    | ch :: r =>
+        do x <- ev_chain ch e v ;;
+        match r with
+        | [] => ret x
+        | _ :: _ => if is_nil (fst x) then Ret (vnil, snd x) ev_short else seq_with r (snd x) (fst x)
+        end
+    end.
+
+  (* spec "Chains" (fields receive the flowing value), "Spread operator" (R7) *)
+  Fixpoint fields_with (fs : list tuple_field) (e : env) (v : value)
+                       (acc : list (option atom * value)) (inh : option (option atom))
+    : res (list (option atom * value) * option (option atom) * env) :=
+    match fs with
+    | [] => ret (acc, inh, e)
+    | TupleField l (FChain ch) :: r =>
+        do x <- ev_chain ch e v ;;
+        fields_with r (snd x) v (add_field acc l (fst x)) inh
+    | TupleField _ (FSpread src) :: r =>
+        match (match src with None => Some v | Some x => lookup_var x e end) with
+        | Some (VTuple sname sfs) =>
+            fields_with r e v (add_fields acc sfs) (match inh with None => Some sname | Some _ => inh end)
+        | Some _ => Error (EStuck s_spread)
+        | None => Error (EStuck s_unbound)
+        end
+    end.
+End Walkers2.
+
+Section Walkers3.
+  Variable ev_seq : sequence -> env -> value -> res (value * env).
+  (* spec "Branches" / "Condition-consequence" (R5, R6) *)
+  Fixpoint branches_with (bs : list branch) (e : env) (v : value) : res value :=
+    match bs with
+    | [] => ret vnil
+    | Branch cond conseq :: r =>
+        do x <- ev_seq cond e v ;;
+        if is_nil (fst x) then tick ev_fallthrough (branches_with r e v)
+        else match conseq with
+             | None => ret (fst x)
+             | Some k => tick ev_commit (do y <- ev_seq k (snd x) v ;; ret (fst y))
+             end
+    end.
+End Walkers3.
+
+Section Walkers4.
+  Variable ev_expr : expression -> env -> value -> res value.
+  (* spec "Interpolation": every hole must evaluate to a Str; a hole is a scope (R7) *)
+  Fixpoint segments_with (segs : list str_segment) (e : env) (v : value) (acc : list Z) : res (list Z) :=
+    match segs with
+    | [] => ret acc
+    | Text bs :: r => segments_with r e v (acc ++ bs)
+    | Hole b :: r =>
+        do h <- ev_expr b e v ;;
+        match h with
+        | VTuple (Some nm) [(None, VBin bs)] =>
+            if nm =? a_Str then segments_with r e v (acc ++ bs) else Error (EStuck s_hole)
+        | _ => Error (EStuck s_hole)
+        end
+    end.
+End Walkers4.
+
+(* ------------------------------------------------------------------------------------------
+   One level of the evaluator: structurally recursive on the AST, parameterised by what consumes
+   fuel: calling a function value and importing a module. *)
+Section Level.
+  Variable tf : nat.                                            (* fuel of the type tests *)
+  Variable callf : value -> value -> stats -> res value.        (* spec "Functions" *)
+  Variable importf : list atom -> res value.                    (* spec "Modules and imports" *)
+
+  (* spec "Chains": callable -> called with the flowing value (nil if nilary); else replaces it *)
+  Definition apply_value (w : value) (v : value) : res value :=
+    if is_callable w then callf w (tail_arg w v) st0 else ret w.
+
+  Fixpoint eval_term (c : ctx) (t : term) (e : env) (v : value) {struct t} : res (value * env) :=
+    match t with
+    (* spec "Chains": literals and tuples replace the value *)
+    | Literal l => ret (val_of_lit l, e)
+    | Tuple name fields =>
+        do r <- fields_with (eval_chain c) fields e v [] None ;;
+        let '(fs, inh, e') := r in
+        match name with
+        | Anonymous => ret (VTuple None fs, e')
+        | Named a => ret (VTuple (Some a) fs, e')
+        | Inherit => match inh with
+                     | Some nm => ret (VTuple nm fs, e')
+                     | None => Error (EStuck s_inherit)
+                     end
+        end
+    (* spec "Strings": Str[text ++ holes] *)
+    | String segs => do bs <- segments_with (eval_expr c) segs e v [] ;; ret (vstr bs, e)
+    | Match p => do_match tf c e p v
+    (* spec "Blocks" / "Variable scoping": a block is a scope *)
+    | Block b => with_env e (eval_expr c b e v)
+    (* spec "Functions": capture by value; R10 *)
+    | Function _ pt _ body => ret (VClos (nilary_of (c_tenv c) pt) body e (c_tenv c), e)
+    | Access (mkAccess src path) =>
+        match src with
+        | None => with_env e (access_all v path)
+        | Some Ripple => with_env e (access_all v path)
+        | Some (Identifier x) =>
+            match lookup_var x e with
+            | Some base => with_env e (do w <- access_all base path ;; apply_value w v)
+            | None => Error (EStuck s_unbound)
+            end
+        | Some ParameterSrc =>
+            with_env e (do w <- access_all (c_param c) path ;; apply_value w v)
+        | Some (ImportSrc p) =>
+            with_env e (do base <- importf p ;; do w <- access_all base path ;; apply_value w v)
+        | Some (Builtin b) =>
+            with_env e (do w <- access_all (VBuiltin b) path ;; apply_value w v)
+        (* spec "Tail recursion" (R9) *)
+        | Some (TailCall None) =>
+            match c_self c, path with
+            | Some f, [] => TailC f (tail_arg f v) st0
+            | Some _, _ :: _ => Error (EStuck s_field)
+            | None, _ => Error (EUnsupported u_toplevel_tail)
+            end
+        | Some (TailCall (Some x)) =>
+            match lookup_var x e with
+            | Some base =>
+                do f <- access_all base path ;;
+                if is_callable f then TailC f (tail_arg f v) st0 else Error (EStuck s_notfun)
+            | None => Error (EStuck s_unbound)
+            end
+        | Some TailCallRipple =>
+            if is_callable v && is_nilary v then TailC v vnil st0 else Error (EStuck s_notfun)
+        | Some SelfSrc => Error (EUnsupported u_process)
+        end
+    (* spec "Function application": `&f` references without calling *)
+    | Reference (mkAccess src path) =>
+        match src with
+        | Some (Identifier x) =>
+            match lookup_var x e with
+            | Some base => with_env e (access_all base path)
+            | None => Error (EStuck s_unbound)
+            end
+        | Some ParameterSrc => with_env e (access_all (c_param c) path)
+        | Some (ImportSrc p) => with_env e (do base <- importf p ;; access_all base path)
+        | Some (Builtin b) => with_env e (access_all (VBuiltin b) path)
+        | Some Ripple => with_env e (access_all v path)
+        | _ => Error (EUnsupported u_process)
+        end
+    | Spawn _ | Self_ | Select _ | Process _ => Error (EUnsupported u_process)
+    end
+
+  (* R1: `p = chain` is `chain =p` *)
+  with eval_chain (c : ctx) (ch : chain) (e : env) (v : value) {struct ch} : res (value * env) :=
+    match ch with
+    | Chain None ts => terms_with (eval_term c) ts e v
+    | Chain (Some p) ts => do x <- terms_with (eval_term c) ts e v ;; do_match tf c (snd x) p (fst x)
+    end
+
+  with eval_sequence (c : ctx) (s : sequence) (e : env) (v : value) {struct s} : res (value * env) :=
+    match s with Sequence cs => seq_with (eval_chain c) cs e v end
+
+  with eval_expr (c : ctx) (b : expression) (e : env) (v : value) {struct b} : res value :=
+    match b with Expression bs => branches_with (eval_sequence c) bs e v end.
+
+  (* R11: a program is one sequence *)
+  Definition run_program (p : program) : res value :=
+    match p with
+    | Program ss =>
+        match seq_with (eval_chain (mkCtx vnil None (collect_aliases ss))) (collect_chains ss) [] vnil with
+        | Ret x w => Ret (fst x) w
+        | TailC _ _ _ => Error (EUnsupported u_toplevel_tail)
+        | Error err => Error err
+        | Timeout => Timeout
+        end
+    end.
+End Level.
+
+(* ------------------------------------------------------------------------------------------
+   Fuel: the depth of function calls / tail-call iterations / nested imports. *)
 Section Eval.
   (* the modules the program can import (spec "Modules and imports"): path -> parsed module *)
   Variable mods : list (list atom * program).
 
-  (* spec "Pattern matching": a match evaluates to Ok / [] (R3 on failure) *)
-  Definition do_match (n : nat) (c : ctx) (e : env) (p : pattern) (v : value) : res (value * env) :=
-    match pmatch n (c_tenv c) e [] p v with
-    | POk b => ret (vok, b ++ e)
-    | PFail => Ret (vnil, nil_fill (binders p) ++ e) ev_match_fail
-    | PErr err => Error err
-    | PTimeout => Timeout
-    end.
-
-  Fixpoint eval_term (n : nat) (c : ctx) (e : env) (t : term) (v : value) {struct n} : res (value * env) :=
-    match n with
-    | O => Timeout
-    | S m =>
-        match t with
-        (* spec "Chains": literals and tuples replace the value *)
-        | Literal l => ret (val_of_lit l, e)
-        | Tuple name fields =>
-            do r <- eval_fields m c e fields v [] None ;;
-            let '(fs, inh, e') := r in
-            match name with
-            | Anonymous => ret (VTuple None fs, e')
-            | Named a => ret (VTuple (Some a) fs, e')
-            | Inherit => match inh with
-                         | Some nm => ret (VTuple nm fs, e')
-                         | None => Error (EStuck s_inherit)
-                         end
-            end
-        (* spec "Strings": Str[text ++ holes] *)
-        | String segs => do bs <- eval_segments m c e segs v [] ;; ret (vstr bs, e)
-        | Match p => do_match m c e p v
-        (* spec "Blocks" / "Variable scoping": a block is a scope *)
-        | Block b => with_env e (eval_expr m c e b v)
-        (* spec "Functions": capture by value; R10 *)
-        | Function _ pt _ body => ret (VClos (nilary_of (c_tenv c) pt) body e (c_tenv c), e)
-        | Access (mkAccess src path) =>
-            match src with
-            | None => with_env e (access_all v path)
-            | Some Ripple => with_env e (access_all v path)
-            | Some (Identifier x) =>
-                match lookup_var x e with
-                | Some base => with_env e (do w <- access_all base path ;; apply_value m w v)
-                | None => Error (EStuck s_unbound)
-                end
-            | Some ParameterSrc =>
-                with_env e (do w <- access_all (c_param c) path ;; apply_value m w v)
-            | Some (ImportSrc p) =>
-                with_env e (do base <- eval_import m p ;; do w <- access_all base path ;; apply_value m w v)
-            | Some (Builtin b) =>
-                with_env e (do w <- access_all (VBuiltin b) path ;; apply_value m w v)
-            (* spec "Tail recursion" (R9) *)
-            | Some (TailCall None) =>
-                match c_self c, path with
-                | Some f, [] => TailC f (tail_arg f v) st0
-                | Some _, _ :: _ => Error (EStuck s_field)
-                | None, _ => Error (EUnsupported u_toplevel_tail)
-                end
-            | Some (TailCall (Some x)) =>
-                match lookup_var x e with
-                | Some base =>
-                    do f <- access_all base path ;;
-                    if is_callable f then TailC f (tail_arg f v) st0 else Error (EStuck s_notfun)
-                | None => Error (EStuck s_unbound)
-                end
-            | Some TailCallRipple =>
-                if is_callable v && is_nilary v then TailC v vnil st0 else Error (EStuck s_notfun)
-            | Some SelfSrc => Error (EUnsupported u_process)
-            end
-        (* spec "Function application": `&f` references without calling *)
-        | Reference (mkAccess src path) =>
-            match src with
-            | Some (Identifier x) =>
-                match lookup_var x e with
-                | Some base => with_env e (access_all base path)
-                | None => Error (EStuck s_unbound)
-                end
-            | Some ParameterSrc => with_env e (access_all (c_param c) path)
-            | Some (ImportSrc p) => with_env e (do base <- eval_import m p ;; access_all base path)
-            | Some (Builtin b) => with_env e (access_all (VBuiltin b) path)
-            | Some Ripple => with_env e (access_all v path)
-            | _ => Error (EUnsupported u_process)
-            end
-        | Spawn _ | Self_ | Select _ | Process _ => Error (EUnsupported u_process)
-        end
-    end
-
-  (* spec "Chains": callable -> called with the flowing value (nil if nilary); else replaces it *)
-  with apply_value (n : nat) (w : value) (v : value) {struct n} : res value :=
-    match n with
-    | O => Timeout
-    | S m => if is_callable w then call m w (tail_arg w v) st0 else ret w
-    end
-
   (* spec "Functions": the body is a block that starts from the parameter; a tail call made by
      the body continues here (R9) *)
-  with call (n : nat) (f : value) (arg : value) (acc : stats) {struct n} : res value :=
+  Fixpoint call (n : nat) (f : value) (arg : value) (acc : stats) {struct n} : res value :=
     match n with
     | O => Timeout
     | S m =>
@@ -887,7 +1003,7 @@ Section Eval.
         | VBuiltin b => tick acc (apply_builtin b arg)
         | VClos _ None _ _ => Ret arg acc                     (* `#'int` = `#'int { $ }` *)
         | VClos _ (Some body) cenv te =>
-            match eval_expr m (mkCtx arg (Some f) te) cenv body arg with
+            match eval_expr m (call m) (eval_import m) (mkCtx arg (Some f) te) body cenv arg with
             | Ret r w => Ret r (st_add acc (st_add ev_closure_call w))
             | TailC g a w => call m g a (st_add acc (st_add ev_closure_call (st_add w ev_tail_call)))
             | Error err => Error err
@@ -897,140 +1013,27 @@ Section Eval.
         end
     end
 
-  (* spec "Chains": infallible pipe, left to right *)
-  with eval_terms (n : nat) (c : ctx) (e : env) (ts : list term) (v : value) {struct n} : res (value * env) :=
-    match n with
-    | O => Timeout
-    | S m =>
-        match ts with
-        | [] => ret (v, e)
-        | t :: r =>
-            do x <- eval_term m c e t v ;;
-            tick (match t, r with
-                  | Match _, _ :: _ => if is_nil (fst x) then ev_mid_fail else st0
-                  | _, _ => st0
-                  end)
-                 (eval_terms m c (snd x) r (fst x))
-        end
-    end
-
-  (* R1 *)
-  with eval_chain (n : nat) (c : ctx) (e : env) (ch : chain) (v : value) {struct n} : res (value * env) :=
-    match n with
-    | O => Timeout
-    | S m =>
-        match ch with
-        | Chain None ts => eval_terms m c e ts v
-        | Chain (Some p) ts => do x <- eval_terms m c e ts v ;; do_match m c (snd x) p (fst x)
-        end
-    end
-
-  (* spec "Expressions"/"Control flow": fallible pipe: a nil step ends the sequence with nil *)
-  with eval_seq (n : nat) (c : ctx) (e : env) (cs : list chain) (v : value) {struct n} : res (value * env) :=
-    match n with
-    | O => Timeout
-    | S m =>
-        match cs with
-        | [] => ret (v, e)
-        | [ch] => eval_chain m c e ch v
-        | ch :: r =>
-            do x <- eval_chain m c e ch v ;;
-            if is_nil (fst x) then Ret (vnil, snd x) ev_short else eval_seq m c (snd x) r (fst x)
-        end
-    end
-
-  (* spec "Branches" / "Condition-consequence" (R5, R6) *)
-  with eval_branches (n : nat) (c : ctx) (e : env) (bs : list branch) (v : value) {struct n} : res value :=
-    match n with
-    | O => Timeout
-    | S m =>
-        match bs with
-        | [] => ret vnil
-        | Branch cond conseq :: r =>
-            do x <- eval_seq m c e (seq_chains cond) v ;;
-            if is_nil (fst x) then tick ev_fallthrough (eval_branches m c e r v)
-            else match conseq with
-                 | None => ret (fst x)
-                 | Some k => tick ev_commit (do y <- eval_seq m c (snd x) (seq_chains k) v ;; ret (fst y))
-                 end
-        end
-    end
-
-  with eval_expr (n : nat) (c : ctx) (e : env) (b : expression) (v : value) {struct n} : res value :=
-    match n with
-    | O => Timeout
-    | S m => match b with Expression bs => eval_branches m c e bs v end
-    end
-
-  (* spec "Chains" (fields receive the flowing value), "Spread operator" (R7) *)
-  with eval_fields (n : nat) (c : ctx) (e : env) (fs : list tuple_field) (v : value)
-                   (acc : list (option atom * value)) (inh : option (option atom)) {struct n}
-    : res (list (option atom * value) * option (option atom) * env) :=
-    match n with
-    | O => Timeout
-    | S m =>
-        match fs with
-        | [] => ret (acc, inh, e)
-        | TupleField l (FChain ch) :: r =>
-            do x <- eval_chain m c e ch v ;;
-            eval_fields m c (snd x) r v (add_field acc l (fst x)) inh
-        | TupleField _ (FSpread src) :: r =>
-            match (match src with None => Some v | Some x => lookup_var x e end) with
-            | Some (VTuple sname sfs) =>
-                eval_fields m c e r v (add_fields acc sfs)
-                            (match inh with None => Some sname | Some _ => inh end)
-            | Some _ => Error (EStuck s_spread)
-            | None => Error (EStuck s_unbound)
-            end
-        end
-    end
-
-  (* spec "Interpolation": every hole must evaluate to a Str; a hole is a scope (R7) *)
-  with eval_segments (n : nat) (c : ctx) (e : env) (segs : list str_segment) (v : value) (acc : list Z) {struct n} : res (list Z) :=
-    match n with
-    | O => Timeout
-    | S m =>
-        match segs with
-        | [] => ret acc
-        | Text bs :: r => eval_segments m c e r v (acc ++ bs)
-        | Hole b :: r =>
-            do h <- eval_expr m c e b v ;;
-            match h with
-            | VTuple (Some nm) [(None, VBin bs)] =>
-                if nm =? a_Str then eval_segments m c e r v (acc ++ bs) else Error (EStuck s_hole)
-            | _ => Error (EStuck s_hole)
-            end
-        end
-    end
-
   (* spec "Modules and imports": the module's value is the value of its program *)
   with eval_import (n : nat) (path : list atom) {struct n} : res value :=
     match n with
     | O => Timeout
     | S m =>
         match find_module path mods with
-        | Some p => eval_program m p
+        | Some p => run_program m (call m) (eval_import m) p
         | None => Error (EUnsupported u_module)
         end
-    end
+    end.
 
-  (* R11 *)
-  with eval_program (n : nat) (p : program) {struct n} : res value :=
+  Definition eval_program (n : nat) (p : program) : res value :=
     match n with
     | O => Timeout
-    | S m =>
-        match p with
-        | Program ss =>
-            match eval_seq m (mkCtx vnil None (collect_aliases ss)) [] (collect_chains ss) vnil with
-            | Ret x w => Ret (fst x) w
-            | TailC _ _ _ => Error (EUnsupported u_toplevel_tail)
-            | Error err => Error err
-            | Timeout => Timeout
-            end
-        end
+    | S m => run_program m (call m) (eval_import m) p
+    end.
+
+  (* The evaluator named by the property: `eval fuel ctx env expression value(flowing in)`. *)
+  Definition eval (n : nat) (c : ctx) (e : env) (b : expression) (v : value) : res value :=
+    match n with
+    | O => Timeout
+    | S m => eval_expr m (call m) (eval_import m) c b e v
     end.
 End Eval.
-
-(* The evaluator named by the property: `eval fuel env expression value(flowing in)`. *)
-Definition eval (mods : list (list atom * program)) (n : nat) (c : ctx) (e : env) (b : expression) (v : value) : res value :=
-  eval_expr mods n c e b v.
